@@ -47,6 +47,30 @@ def comparison(cond):
     return None
 
 
+def tuple_comparison(es):
+    """fields f for which `(.., self.f, ..) == (.., other.f, ..)` compares self.f with other.f at the same position
+    (tuple equality is the conjunction of the componentwise equalities); None if es is not such a comparison"""
+    if not (es.k == "call" and es.a[0].name == "eq" and (es.a[0].trait or "").endswith("PartialEq") and len(es.a[1]) == 2):
+        return None
+    a, b = strip(es.a[1][0]), strip(es.a[1][1])
+    if not (a.k == "agg" and b.k == "agg" and a.a[0] == "tuple" and b.a[0] == "tuple" and set(a.a[1]) == set(b.a[1])):
+        return None
+
+    def fld(x):
+        x = strip(x)
+        for _ in range(6):
+            if x.k == "call" and x.a[0].name in ("as_slice", "as_ref", "deref", "as_bytes", "borrow", "clone", "raw") and len(x.a[1]) == 1:
+                x = strip(x.a[1][0])
+        return x
+    out = set()
+    for k in a.a[1]:
+        f = field_pair(fld(a.a[1][k]), fld(b.a[1][k]))
+        if f is None:
+            return None
+        out.add(f)
+    return out
+
+
 def run(ctx, report):
     cfg = ctx.config
     # ---------------- eq
@@ -72,7 +96,10 @@ def run(ctx, report):
                 falsity = allowed == {0}
                 if (cmpi[1] and truth) or ((not cmpi[1]) and falsity):
                     fields.add(cmpi[0])
-            if not (es.k == "const" and es.a[0] == 1):
+            tup = tuple_comparison(es)
+            if tup is not None:
+                fields |= tup
+            elif not (es.k == "const" and es.a[0] == 1):
                 cmpi = comparison(es)
                 if cmpi is None:
                     problems.append("returns %s" % short(e, 160))
